@@ -75,28 +75,19 @@ func ParseBool(v string) (Bool, error) {
 // inputScale: the decimal scale of input amount
 // outputScale: the decimal scale of output amount
 func LossLessSwap(input sdkmath.Int, ratio sdkmath.LegacyDec, inputScale, outputScale uint32) (sdkmath.Int, sdkmath.Int) {
-	inputDec := sdkmath.LegacyNewDecFromInt(input)
-	scaleFactor := int64(inputScale) - int64(outputScale)
-	var scaleMultipler, scaleReverseMultipler sdkmath.LegacyDec
-
-	if scaleFactor >= 0 {
-		scaleMultipler = sdkmath.LegacyNewDecWithPrec(1, scaleFactor)
-		scaleReverseMultipler = sdkmath.LegacyNewDecFromInt(sdkmath.NewIntWithDecimal(1, int(scaleFactor)))
-	} else {
-		scaleMultipler = sdkmath.LegacyNewDecFromInt(sdkmath.NewIntWithDecimal(1, int(-scaleFactor)))
-		scaleReverseMultipler = sdkmath.LegacyNewDecWithPrec(1, -scaleFactor)
+	if !input.IsPositive() || !ratio.IsPositive() {
+		return sdkmath.ZeroInt(), sdkmath.ZeroInt()
 	}
 
-	// Calculate output
-	outputDec := inputDec.Clone().Mul(scaleMultipler).Mul(ratio)
-	outputInt := outputDec.Clone().TruncateDec()
+	// output = input * ratio * 10^outputScale / 10^inputScale, in exact integers:
+	// ratio is an 18-decimal fixed point number, ratio = ratio.BigInt() / 10^18
+	numerator := sdkmath.NewIntFromBigInt(ratio.BigInt()).Mul(sdkmath.NewIntWithDecimal(1, int(outputScale)))
+	denominator := sdkmath.NewIntWithDecimal(1, sdkmath.LegacyPrecision).Mul(sdkmath.NewIntWithDecimal(1, int(inputScale)))
 
-	// Adjust input if there are decimal places in the output
-	if !outputDec.Equal(outputInt) {
-		outputFrac := outputDec.Clone().Sub(outputInt)
-		inputFrac := outputFrac.Mul(scaleReverseMultipler)
-		input = inputDec.Sub(inputFrac).TruncateInt()
-	}
+	// the output is truncated; only the input that is needed to pay for the truncated
+	// output is consumed (rounded up, so the output is never worth more than the input)
+	output := input.Mul(numerator).Quo(denominator)
+	consumed := output.Mul(denominator).Add(numerator.SubRaw(1)).Quo(numerator)
 
-	return input, outputInt.TruncateInt()
+	return consumed, output
 }
